@@ -62,3 +62,350 @@ Proof.
     + rewrite Hlim1; exact L1.
     + rewrite Hlim1; exact L2.
 Qed.
+
+Lemma lenN_firstnN_le (l : list N) n : lenN (firstnN n l) <= lenN l.
+Proof. unfold lenN, firstnN. rewrite firstn_length. lia. Qed.
+Lemma lenN_map (f : N -> N) l : lenN (map f l) = lenN l.
+Proof. unfold lenN. rewrite map_length. reflexivity. Qed.
+
+(** What each derived-array builder puts into the result. *)
+Definition derived_content (pred : N -> bool) (cp : N -> N) (kind : N) (b e : N) (l : list N) : list N :=
+  if kind =? 0 then firstnN (e - b + 1) (skipnN b l)          (* subarray b e *)
+  else if kind =? 1 then l                                      (* copy_shallow *)
+  else if kind =? 2 then map cp l                               (* copy_deep *)
+  else filter pred l.                                           (* filter *)
+
+Theorem subarray_spec a b e al :
+  arr_inv a al -> lim_ok a al -> b < W -> e < W ->
+  exists st r al', arr_subarray a b e al = Ok (st, r, al') /\
+    if (b <=? e) && (e <? a_size a) then
+      match r with
+      | Some s => st = CC_OK /\ a_data s = firstnN (e - b + 1) (skipnN b (a_data a)) /\ arr_inv s al' /\ lim_ok s al' /\
+                  arr_inv a al' /\ a_mem s = a_mem a /\ a_num s = a_num a /\ a_den s = a_den a
+      | None => st = CC_ERR_ALLOC /\ live al' = live al /\ arr_inv a al'
+      end
+    else st = CC_ERR_INVALID_RANGE /\ r = None /\ al' = al.
+Proof.
+  intros Hi Hl Hb He. unfold arr_subarray, g_array_subarray_range.
+  destruct ((e <? b) || (a_size a <=? e)) eqn:Eg.
+  - do 3 eexists. split; [reflexivity|].
+    replace ((b <=? e) && (e <? a_size a)) with false; auto.
+    symmetry. apply andb_false_iff. apply orb_true_iff in Eg. destruct Eg; [left|right]; lia.
+  - apply orb_false_iff in Eg. destruct Eg as [E1 E2].
+    replace ((b <=? e) && (e <? a_size a)) with true by (symmetry; apply andb_true_iff; split; lia).
+    pose proof (ai_size _ _ Hi).
+    destruct (derive_spec a (firstnN (e - b + 1) (skipnN b (a_data a))) al Hi Hl) as (st & r & al' & -> & Hr).
+    + eapply N.le_trans; [apply lenN_firstnN_le|]. rewrite lenN_skipnN. unfold a_size in *. lia.
+    + do 3 eexists. split; [reflexivity|]. destruct r as [s|]; intuition.
+Qed.
+
+Theorem copy_shallow_spec a al :
+  arr_inv a al -> lim_ok a al ->
+  exists st r al', arr_copy_shallow a al = Ok (st, r, al') /\
+    match r with
+    | Some s => st = CC_OK /\ a_data s = a_data a /\ a_cap s = a_cap a /\ arr_inv s al' /\ lim_ok s al' /\ arr_inv a al' /\
+                a_mem s = a_mem a /\ a_num s = a_num a /\ a_den s = a_den a
+    | None => st = CC_ERR_ALLOC /\ live al' = live al /\ arr_inv a al'
+    end.
+Proof.
+  intros Hi Hl. unfold arr_copy_shallow.
+  destruct (derive_spec a (a_data a) al Hi Hl) as (st & r & al' & -> & Hr); [apply (ai_size _ _ Hi)|].
+  do 3 eexists. split; [reflexivity|]. destruct r as [s|]; intuition.
+Qed.
+
+Theorem copy_deep_spec cp a al :
+  arr_inv a al -> lim_ok a al ->
+  exists st r al', arr_copy_deep cp a al = Ok (st, r, al') /\
+    match r with
+    | Some s => st = CC_OK /\ a_data s = map cp (a_data a) /\ arr_inv s al' /\ lim_ok s al' /\ arr_inv a al' /\ a_mem s = a_mem a
+    | None => st = CC_ERR_ALLOC /\ live al' = live al /\ arr_inv a al'
+    end.
+Proof.
+  intros Hi Hl. unfold arr_copy_deep.
+  destruct (derive_spec a (map cp (a_data a)) al Hi Hl) as (st & r & al' & -> & Hr); [rewrite lenN_map; apply (ai_size _ _ Hi)|].
+  do 3 eexists. split; [reflexivity|]. destruct r as [s|]; intuition.
+Qed.
+
+Theorem filter_spec pred a al :
+  arr_inv a al -> lim_ok a al ->
+  exists st r al', arr_filter pred a al = Ok (st, r, al') /\
+    if a_size a =? 0 then st = CC_ERR_OUT_OF_RANGE /\ r = None /\ al' = al else
+    match r with
+    | Some s => st = CC_OK /\ a_data s = filter pred (a_data a) /\ arr_inv s al' /\ lim_ok s al' /\ arr_inv a al' /\ a_mem s = a_mem a
+    | None => st = CC_ERR_ALLOC /\ live al' = live al /\ arr_inv a al'
+    end.
+Proof.
+  intros Hi Hl. unfold arr_filter, g_array_filter_empty.
+  destruct (a_size a =? 0) eqn:E.
+  - do 3 eexists. split; [reflexivity|]. auto.
+  - destruct (derive_spec a (filter pred (a_data a)) al Hi Hl) as (st & r & al' & -> & Hr).
+    + eapply N.le_trans; [apply lenN_filter_le|apply (ai_size _ _ Hi)].
+    + do 3 eexists. split; [reflexivity|]. destruct r as [s|]; intuition.
+Qed.
+
+(** ------------------------------------------------------------------ C16: rejected operations are inert *)
+Lemma set_data_same a : set_data a (a_data a) = a.
+Proof. destruct a; reflexivity. Qed.
+
+(** Any step that reports a status other than CC_OK returns the very same array; unless it was a refused
+    allocation it also leaves the ledger untouched. *)
+Theorem arr_err_inert pred a o al out a' al' :
+  arr_inv a al -> lim_ok a al -> op_ok o ->
+  arr_step pred a o al = Ok (out, a', al') ->
+  (forall v, out <> AOut CC_OK v) -> a' = a /\ (al' = al \/ (allocating o = true /\ refused_once al al')).
+Proof.
+  intros Hi Hl Hop Hs Hne. pose proof (inv_capW a al Hi Hl) as [HcW HsW].
+  destruct o as [x|x i|x i|i j|x|i| | |i| |x|x| | | |]; cbn [arr_step op_ok allocating] in *.
+  - destruct (add_spec a x al Hi Hl) as (st & b & bl & Heq & Ho). rewrite Heq in Hs. cbn [bind] in Hs. inversion Hs; subst.
+    unfold alloc_outcome in Ho. destruct Ho as [(-> & _)|(-> & -> & Hr)]; [exfalso; eapply Hne; reflexivity|auto].
+  - destruct (add_at_spec a x i al Hi Hl Hop) as (st & b & bl & Heq & Ho). rewrite Heq in Hs. cbn [bind] in Hs. inversion Hs; subst.
+    destruct (i <=? a_size a).
+    + unfold alloc_outcome in Ho. destruct Ho as [(-> & _)|(-> & -> & Hr)]; [exfalso; eapply Hne; reflexivity|auto].
+    + destruct Ho as (_ & -> & ->). auto.
+  - rewrite replace_at_spec in Hs by assumption.
+    destruct (getN (a_data a) i); [destruct (updN (a_data a) i x)|]; inversion Hs; subst; auto; exfalso; eapply Hne; reflexivity.
+  - destruct Hop. rewrite swap_at_spec in Hs by assumption.
+    destruct (getN (a_data a) i) as [vx|]; [destruct (getN (a_data a) j) as [vy|]; [destruct (updN (a_data a) i vy) as [l1|]; [destruct (updN l1 j vx)|]|]|];
+      inversion Hs; subst; auto; exfalso; eapply Hne; reflexivity.
+  - unfold arr_remove in Hs. destruct (index_ofN (a_data a) x); inversion Hs; subst; auto; exfalso; eapply Hne; reflexivity.
+  - rewrite remove_at_spec in Hs by assumption.
+    destruct (getN (a_data a) i); inversion Hs; subst; auto; exfalso; eapply Hne; reflexivity.
+  - rewrite remove_last_spec in Hs by assumption.
+    destruct (getN (a_data a) (a_size a - 1)); [destruct (0 <? a_size a)|]; inversion Hs; subst; auto; exfalso; eapply Hne; reflexivity.
+  - inversion Hs; subst. exfalso; eapply Hne; reflexivity.
+  - rewrite get_at_spec in Hs by assumption. destruct (getN (a_data a) i); inversion Hs; subst; auto.
+  - rewrite get_last_spec in Hs by assumption.
+    destruct (getN (a_data a) (a_size a - 1)); [destruct (0 <? a_size a)|]; inversion Hs; subst; auto.
+  - unfold arr_index_of in Hs. destruct (index_ofN (a_data a) x); inversion Hs; subst; auto.
+  - inversion Hs; subst; auto.
+  - rewrite reverse_spec in Hs by assumption. cbn [bind] in Hs. inversion Hs; subst. exfalso; eapply Hne; reflexivity.
+  - destruct (N.eq_dec (a_size a) 0) as [E|E].
+    + unfold arr_filter_mut, g_array_filter_mut_empty in Hs. rewrite E in Hs. cbn in Hs. inversion Hs; subst; auto.
+    + rewrite (filter_mut_spec pred a E) in Hs. inversion Hs; subst. exfalso; eapply Hne; reflexivity.
+  - destruct (trim_spec a al Hi Hl) as (st & b & bl & Heq & Ho). rewrite Heq in Hs. cbn [bind] in Hs. inversion Hs; subst.
+    destruct Ho as [(-> & _)|(-> & -> & Hr)]; [exfalso; eapply Hne; reflexivity|auto].
+  - inversion Hs; subst; auto.
+Qed.
+
+(** The generated range guards reject exactly the indices outside [0, size), for all values below 2^64. *)
+Theorem array_guards : forall i j n,
+  (g_array_replace_at_range i n = true <-> n <= i) /\
+  (g_array_remove_at_range i n = true <-> n <= i) /\
+  (g_array_get_at_range i n = true <-> n <= i) /\
+  (g_array_swap_at_range i j n = true <-> (n <= i \/ n <= j)) /\
+  (g_array_subarray_range i j n = true <-> (j < i \/ n <= j)) /\
+  (g_array_iter_next_end i n = true <-> n <= i).
+Proof.
+  intros i j n. unfold g_array_replace_at_range, g_array_remove_at_range, g_array_get_at_range, g_array_swap_at_range,
+    g_array_subarray_range, g_array_iter_next_end.
+  repeat apply conj; rewrite ?orb_true_iff, ?N.leb_le, ?N.ltb_lt; tauto.
+Qed.
+
+(** ------------------------------------------------------------------ C07: the array iterator *)
+Lemma skipnN_removeN (l : list N) k : k < lenN l -> skipnN k (removeN l k) = skipnN (k + 1) l.
+Proof.
+  intros H. unfold removeN, skipnN, firstnN. rewrite skipn_app, firstn_length.
+  replace (Nat.min (N.to_nat k) (length l)) with (N.to_nat k) by (unfold lenN in H; lia).
+  rewrite skipn_all2 by (rewrite firstn_length; unfold lenN in H; lia). rewrite Nat.sub_diag. reflexivity.
+Qed.
+Lemma firstnN_removeN (l : list N) k : k < lenN l -> firstnN k (removeN l k) = firstnN k l.
+Proof.
+  intros H. unfold removeN, firstnN. rewrite firstn_app, firstn_length.
+  replace (Nat.min (N.to_nat k) (length l)) with (N.to_nat k) by (unfold lenN in H; lia).
+  rewrite Nat.sub_diag, firstn_O, app_nil_r. rewrite firstn_firstn. f_equal. lia.
+Qed.
+Lemma skipnN_insertN (l : list N) k x : k <= lenN l -> skipnN (k + 1) (insertN l k x) = skipnN k l.
+Proof.
+  intros H. unfold insertN, skipnN, firstnN. rewrite skipn_app, firstn_length.
+  replace (Nat.min (N.to_nat k) (length l)) with (N.to_nat k) by (unfold lenN in H; lia).
+  rewrite skipn_all2 by (rewrite firstn_length; unfold lenN in H; lia).
+  replace (N.to_nat (k + 1) - N.to_nat k)%nat with 1%nat by lia. reflexivity.
+Qed.
+Lemma firstnN_insertN (l : list N) k x : k <= lenN l -> firstnN k (insertN l k x) = firstnN k l.
+Proof.
+  intros H. unfold insertN, firstnN. rewrite firstn_app, firstn_length.
+  replace (Nat.min (N.to_nat k) (length l)) with (N.to_nat k) by (unfold lenN in H; lia).
+  rewrite Nat.sub_diag, firstn_O, app_nil_r. rewrite firstn_firstn. f_equal. lia.
+Qed.
+
+(** next: yields the element under the cursor and advances, or reports the end - at every fill level. *)
+Theorem it_next_spec a it :
+  a_size a < W ->
+  it_next a it = match getN (a_data a) (it_index it) with
+                 | Some v => (CC_OK, Some v, {| it_index := wadd (it_index it) 1; it_removed := false |})
+                 | None => (CC_ITER_END, None, it) end.
+Proof.
+  intros Hs. unfold it_next, g_array_iter_next_end. destruct (a_size a <=? it_index it) eqn:E; [|reflexivity].
+  rewrite (proj2 (getN_None_ge _ _)) by (unfold a_size in *; lia). reflexivity.
+Qed.
+
+(** A traversal from cursor position [k] yields exactly the elements from [k] on, in order, then the end. *)
+Fixpoint it_collect (fuel : nat) (a : arr) (it : aiter) : list N :=
+  match fuel with
+  | O => []
+  | S f => match it_next a it with (CC_OK, Some v, it') => v :: it_collect f a it' | _ => [] end
+  end.
+Theorem it_collect_spec fuel : forall a it,
+  a_size a < W -> (N.to_nat (a_size a - it_index it) <= fuel)%nat ->
+  it_collect fuel a it = skipnN (it_index it) (a_data a).
+Proof.
+  induction fuel as [|f IH]; intros a it Hs Hf.
+  - cbn. unfold skipnN. rewrite skipn_all2; [reflexivity|]. unfold a_size, lenN in *. lia.
+  - cbn [it_collect]. rewrite it_next_spec by assumption.
+    destruct (getN (a_data a) (it_index it)) as [v|] eqn:Eg.
+    + pose proof (getN_Some_lt _ _ _ Eg) as Hlt. rewrite IH; cbn [it_index]; auto.
+      * rewrite wadd1 by (unfold a_size in *; lia). unfold skipnN, getN in *.
+        replace (N.to_nat (it_index it + 1)) with (S (N.to_nat (it_index it))) by lia.
+        symmetry. apply skipn_nth. assumption.
+      * rewrite wadd1 by (unfold a_size in *; lia). unfold a_size in *. lia.
+    + apply getN_None_ge in Eg. unfold skipnN. rewrite skipn_all2; [reflexivity|]. unfold lenN in *. lia.
+Qed.
+Corollary it_fresh_complete a : a_size a < W -> it_collect (N.to_nat (a_size a)) a it_init = a_data a.
+Proof. intros Hs. rewrite it_collect_spec by (cbn; auto; lia). reflexivity. Qed.
+
+(** remove directly after a yield (cursor k >= 1, nothing removed since): removes exactly the yielded
+    element (position k-1), everything before and after it is untouched, and the cursor moves back so that
+    the rest of the traversal is exactly the not-yet-visited original elements. *)
+Theorem it_remove_spec a it :
+  a_size a < W -> it_removed it = false -> 0 < it_index it -> it_index it <= a_size a ->
+  exists v, getN (a_data a) (it_index it - 1) = Some v /\
+    it_remove a it = (CC_OK, Some v, set_data a (removeN (a_data a) (it_index it - 1)),
+                      {| it_index := it_index it - 1; it_removed := true |}) /\
+    skipnN (it_index it - 1) (removeN (a_data a) (it_index it - 1)) = skipnN (it_index it) (a_data a) /\
+    firstnN (it_index it - 1) (removeN (a_data a) (it_index it - 1)) = firstnN (it_index it - 1) (a_data a).
+Proof.
+  intros Hs Hr Hp Hle. unfold it_remove. rewrite Hr. rewrite wsub1 by lia.
+  rewrite remove_at_spec by lia.
+  destruct (getN_lt (a_data a) (it_index it - 1)) as [v Hv]; [unfold a_size in *; lia|].
+  exists v. rewrite Hv. repeat apply conj; auto.
+  - rewrite skipnN_removeN by (unfold a_size in *; lia). f_equal. lia.
+  - apply firstnN_removeN. unfold a_size in *. lia.
+Qed.
+
+(** add after a yield: the element is inserted at the cursor (right after the yielded element), the cursor
+    steps over it, the rest of the traversal is unchanged; a refused growth changes nothing - cursor included. *)
+Theorem it_add_spec a it x al :
+  arr_inv a al -> lim_ok a al -> it_index it <= a_size a ->
+  exists st a' it' al', it_add a it x al = Ok (st, a', it', al') /\
+    ((st = CC_OK /\ a_data a' = insertN (a_data a) (it_index it) x /\ it_index it' = it_index it + 1 /\
+      it_removed it' = it_removed it /\ arr_inv a' al' /\ lim_ok a' al' /\
+      skipnN (it_index it') (a_data a') = skipnN (it_index it) (a_data a) /\
+      firstnN (it_index it) (a_data a') = firstnN (it_index it) (a_data a)) \/
+     (st = CC_ERR_ALLOC /\ a' = a /\ it' = it /\ refused_once al al')).
+Proof.
+  intros Hi Hl Hle. pose proof (inv_capW a al Hi Hl) as [HcW HsW]. pose proof (ai_size _ _ Hi) as Hsz. unfold it_add.
+  destruct (add_at_spec a x (it_index it) al Hi Hl) as (st & a' & al' & -> & Ho); [lia|]. cbn [bind].
+  replace (it_index it <=? a_size a) with true in Ho by lia. unfold alloc_outcome in Ho.
+  destruct Ho as [(-> & Hd & Hi' & Hl' & _)|(-> & -> & Hr)].
+  - do 4 eexists. split; [reflexivity|]. left. cbn [it_index it_removed]. rewrite wadd1 by (unfold W in *; lia).
+    repeat apply conj; auto; try apply Hl'.
+    + rewrite Hd. apply skipnN_insertN. unfold a_size in *. lia.
+    + rewrite Hd. apply firstnN_insertN. unfold a_size in *. lia.
+  - do 4 eexists. split; [reflexivity|]. right. auto.
+Qed.
+
+Theorem it_replace_spec a it x :
+  a_size a < W -> 0 < it_index it -> it_index it <= a_size a ->
+  exists old l', getN (a_data a) (it_index it - 1) = Some old /\ updN (a_data a) (it_index it - 1) x = Some l' /\
+    it_replace a it x = (CC_OK, Some old, set_data a l') /\ it_idx it = it_index it - 1.
+Proof.
+  intros Hs Hp Hle. unfold it_replace, it_idx. rewrite wsub1 by lia. rewrite replace_at_spec by lia.
+  destruct (getN_lt (a_data a) (it_index it - 1)) as [old Ho]; [unfold a_size in *; lia|].
+  destruct (updN_lt (a_data a) (it_index it - 1) x) as [l' Hu]; [unfold a_size in *; lia|].
+  exists old, l'. rewrite Ho, Hu. auto.
+Qed.
+
+(** zip: advances both arrays in lockstep and stops at the shorter one. *)
+Theorem zip_next_spec a1 a2 it :
+  a_size a1 < W -> a_size a2 < W ->
+  zip_next a1 a2 it = match getN (a_data a1) (it_index it), getN (a_data a2) (it_index it) with
+                      | Some x, Some y => (CC_OK, Some (x, y), {| it_index := wadd (it_index it) 1; it_removed := false |})
+                      | _, _ => (CC_ITER_END, None, it) end.
+Proof.
+  intros H1 H2. unfold zip_next, g_array_zip_next_end.
+  destruct ((a_size a1 <=? it_index it) || (a_size a2 <=? it_index it)) eqn:E; [|reflexivity].
+  apply orb_true_iff in E. destruct E as [E|E].
+  - rewrite (proj2 (getN_None_ge (a_data a1) _)) by (unfold a_size in *; lia). reflexivity.
+  - rewrite (proj2 (getN_None_ge (a_data a2) _)) by (unfold a_size in *; lia). destruct (getN (a_data a1) (it_index it)); reflexivity.
+Qed.
+
+(** ------------------------------------------------------------------ C09: CC_Stack is LIFO *)
+(** The abstract stack is the array contents, bottom first. *)
+Theorem stack_push_spec s x al :
+  arr_inv (s_arr s) al -> lim_ok (s_arr s) al ->
+  exists st s' al', stack_push s x al = Ok (st, s', al') /\
+    ((st = CC_OK /\ a_data (s_arr s') = a_data (s_arr s) ++ [x] /\ arr_inv (s_arr s') al' /\ lim_ok (s_arr s') al' /\
+      s_hdr s' = s_hdr s /\ s_mem s' = s_mem s) \/
+     (st = CC_ERR_ALLOC /\ s' = s /\ refused_once al al')).
+Proof.
+  intros Hi Hl. unfold stack_push.
+  destruct (add_spec (s_arr s) x al Hi Hl) as (st & a' & al' & -> & Ho). cbn [bind]. unfold alloc_outcome in Ho.
+  destruct Ho as [(-> & Hd & Hi' & Hl' & _)|(-> & -> & Hr)].
+  - do 3 eexists. split; [reflexivity|]. left. cbn. repeat apply conj; auto; apply Hl'.
+  - do 3 eexists. split; [reflexivity|]. right. destruct s; auto.
+Qed.
+
+Theorem stack_pop_spec s :
+  a_size (s_arr s) < W ->
+  stack_pop s = match rev (a_data (s_arr s)) with
+                | top :: rest => (CC_OK, Some top, with_arr s (set_data (s_arr s) (rev rest)))
+                | [] => (CC_ERR_OUT_OF_RANGE, None, s) end.
+Proof.
+  intros Hs. unfold stack_pop. rewrite remove_last_spec by assumption.
+  destruct (rev (a_data (s_arr s))) as [|top rest] eqn:Er.
+  - assert (Ed : a_data (s_arr s) = []) by (apply (f_equal (@rev N)) in Er; rewrite rev_involutive in Er; exact Er).
+    unfold a_size. rewrite Ed. cbn. destruct s; reflexivity.
+  - assert (Ed : a_data (s_arr s) = rev rest ++ [top]) by (apply (f_equal (@rev N)) in Er; rewrite rev_involutive in Er; exact Er).
+    unfold a_size. rewrite Ed. set (l := rev rest).
+    rewrite lenN_app. change (lenN [top]) with 1. replace (lenN l + 1 - 1) with (lenN l) by lia.
+    rewrite getN_app_mid. replace (0 <? lenN l + 1) with true by lia.
+    f_equal. f_equal. f_equal.
+    unfold removeN, firstnN, skipnN, lenN. rewrite Nat2N.id. rewrite firstn_app, firstn_all, Nat.sub_diag, firstn_O, app_nil_r.
+    rewrite skipn_all2 by (rewrite app_length; cbn; lia). apply app_nil_r.
+Qed.
+
+Theorem stack_peek_spec s :
+  a_size (s_arr s) < W ->
+  stack_peek s = match rev (a_data (s_arr s)) with
+                 | top :: _ => (CC_OK, Some top) | [] => (CC_ERR_VALUE_NOT_FOUND, None) end.
+Proof.
+  intros Hs. unfold stack_peek. rewrite get_last_spec by assumption.
+  destruct (rev (a_data (s_arr s))) as [|top rest] eqn:Er.
+  - assert (Ed : a_data (s_arr s) = []) by (apply (f_equal (@rev N)) in Er; rewrite rev_involutive in Er; exact Er).
+    unfold a_size. rewrite Ed. reflexivity.
+  - assert (Ed : a_data (s_arr s) = rev rest ++ [top]) by (apply (f_equal (@rev N)) in Er; rewrite rev_involutive in Er; exact Er).
+    unfold a_size. rewrite Ed. set (l := rev rest).
+    rewrite lenN_app. change (lenN [top]) with 1. replace (lenN l + 1 - 1) with (lenN l) by lia.
+    rewrite getN_app_mid. replace (0 <? lenN l + 1) with true by lia. reflexivity.
+Qed.
+
+(** ------------------------------------------------------------------ C18: sorting glue *)
+(** cc_array_sort hands the live prefix to qsort and nothing else: under the hypothesis that the sorter
+    returns a sorted permutation, so is the array; size, capacity and blocks are unchanged. *)
+Theorem arr_sort_spec (sorter : list N -> list N) (le : N -> N -> Prop) a :
+  (forall l, Permutation l (sorter l) /\ Sorted le (sorter l)) ->
+  Permutation (a_data a) (a_data (arr_sort sorter a)) /\ Sorted le (a_data (arr_sort sorter a)) /\
+  a_size (arr_sort sorter a) = a_size a /\ a_cap (arr_sort sorter a) = a_cap a /\
+  (a_size a <= 1 -> a_data (arr_sort sorter a) = a_data a).
+Proof.
+  intros H. destruct (H (a_data a)) as [Hp Hs]. cbn. repeat apply conj; auto.
+  - unfold a_size, lenN. cbn. rewrite (Permutation_length Hp). reflexivity.
+  - intros Hle. unfold a_size, lenN in Hle. destruct (a_data a) as [|x [|y t]] eqn:E; cbn in Hle; try lia.
+    + apply Permutation_nil in Hp. assumption.
+    + apply Permutation_length_1_inv in Hp. assumption.
+Qed.
+
+(** ------------------------------------------------------------------ C20: capacity facts *)
+Theorem arr_size_le_capacity a al : arr_inv a al -> a_size a <= a_cap a /\ 1 <= a_cap a.
+Proof. intros Hi. split; [apply (ai_size _ _ Hi)|pose proof (ai_cap _ _ Hi); lia]. Qed.
+
+(** One growth step multiplies the capacity by at least (num+den)/(2 den) when capacity*(num-den) >= 2 den:
+    c*num/den >= c*(num+den)/(2den). Iterating gives the geometric lower bound, hence O(log n) reallocations. *)
+Lemma growth_rate c num den :
+  0 < den -> den < num -> 2 * den <= c * (num - den) -> c * (num + den) <= (c * num / den) * (2 * den).
+Proof.
+  intros Hd Hn Hc.
+  assert (H1 : c * num < (c * num / den + 1) * den).
+  { pose proof (N.mul_succ_div_gt (c * num) den). lia. }
+  nia.
+Qed.
